@@ -104,6 +104,12 @@ class C18Monitor(Monitor):
     def after_step(self, run, action, ret):
         self._end_of_tick(run)
 
+    def mid_tick(self, run):
+        self._end_of_tick(run)
+
+    def after_tick(self, run):
+        self._raise_pending()
+
     def after_reset(self, run, seed, ret):
         self._raise_pending()
 
